@@ -243,6 +243,11 @@ func Supervise(spec Spec, tier string) int {
 		fmt.Println(line)
 	}
 	seenKey := map[string]int{}
+	if os.Getenv("VERIF_DUMP") != "" {
+		for _, v := range fresh {
+			fmt.Printf("DUMP clause=%s trigger=%s case=%s\n", v.Clause, v.Trigger, string(v.Desc))
+		}
+	}
 	for _, v := range fresh {
 		key := v.Clause + "|" + v.Trigger
 		seenKey[key]++
